@@ -884,6 +884,100 @@ def _cutoff_ordering(chk, rule, rel, where, fn, facts):
             chk.ok(rule, inst, detail="%d consumer(s) all after the zeroing" % len(consumers))
 
 
+def stale_loop_reads(fn):
+    """Reads of a `for` target after its loop has ended (the variable then holds the last item, or is
+    unbound for an empty sequence): list of (Name node, for statement).  Loops that `break` are skipped
+    (keeping the found item is an idiom); a rebinding of the name ends the staleness; comprehension
+    variables are their own scope."""
+    g = cfgm.CFG(fn)
+    out = []
+    for L in g.nodes:
+        st = L.ast
+        if L.kind != "iter" or not isinstance(st, (ast.For, ast.AsyncFor)):
+            continue
+        if any(isinstance(x, ast.Break) for b in st.body for x in ast.walk(b)):
+            continue
+        targets = {x.id for x in ast.walk(st.target) if isinstance(x, ast.Name)}
+        inside = {id(x) for x in ast.walk(st)}
+        for v in targets:
+            binders = {n.id for n in g.nodes if n.ast is not None and n.id != L.id
+                       and n.kind in ("stmt", "iter", "with") and _binds_name(n.ast, v)}
+            start = [u for u in g.succ[L.id] if g.edge_label.get((L.id, u)) == "F"]
+            seen, todo = set(), list(start)
+            while todo:
+                u = todo.pop()
+                if u in seen:
+                    continue
+                seen.add(u)
+                node = g.nodes[u]
+                if node.ast is not None and id(node.ast) not in inside:
+                    exprs = []
+                    if node.kind == "test":
+                        exprs = [node.ast.test]
+                    elif node.kind == "iter":
+                        exprs = [node.ast.iter]
+                    elif node.kind == "with":
+                        exprs = [i.context_expr for i in node.ast.items]
+                    elif node.kind == "stmt" and not isinstance(
+                            node.ast, (ast.Try, ast.FunctionDef, ast.AsyncFunctionDef, ast.ClassDef)):
+                        exprs = [node.ast]
+                    for ex in exprs:
+                        comp = set()
+                        for x in ast.walk(ex):
+                            if isinstance(x, ast.comprehension):
+                                comp |= {y.id for y in ast.walk(x.target) if isinstance(y, ast.Name)}
+                        if v in comp:
+                            continue
+                        # an augmented / plain assignment to v itself reads it only if v is on the right
+                        for x in ast.walk(ex):
+                            if isinstance(x, ast.Name) and x.id == v and isinstance(x.ctx, ast.Load):
+                                out.append((x, st))
+                                break
+                if u in binders or u == L.id:
+                    continue
+                todo.extend(g.succ[u])
+    # one report per (loop, statement)
+    uniq, keys = [], set()
+    for x, st in out:
+        k = (id(st), x.lineno)
+        if k not in keys:
+            keys.add(k)
+            uniq.append((x, st))
+    return uniq
+
+
+def check_stale_loop_vars(chk, prog, targets, rule="stale-loop-var"):
+    """every method of the given classes (and of their repo base classes)"""
+    n = 0
+    done = set()
+    for rel, cname in targets:
+        mod = prog.module(rel)
+        for m, c in prog.mro(mod, mod.cls(cname)):
+            for mname, fn in pf.methods(c).items():
+                if id(fn) in done:
+                    continue
+                done.add(id(fn))
+                loops = [x for x in pf.walk_no_nested(fn) if isinstance(x, (ast.For, ast.AsyncFor))]
+                if not loops:
+                    continue
+                n += 1
+                stale = stale_loop_reads(fn)
+                inst = "%s.%s: no loop variable is read after its loop" % (c.name, mname)
+                if not stale:
+                    chk.ok(rule, inst, detail="%d loop(s)" % len(loops))
+                    continue
+                x, st = stale[0]
+                stmt = x
+                while pf.parent(stmt) is not None and not isinstance(stmt, ast.stmt):
+                    stmt = pf.parent(stmt)
+                chk.violation(rule, m.rel, "%s.%s" % (c.name, mname), pf.src(stmt).splitlines()[0][:110], x.lineno,
+                              "`%s` is the target of `for %s in %s:` (line %d), but this statement runs after that "
+                              "loop has ended: it acts once, on the last item only (and fails for an empty "
+                              "sequence) instead of once per item" % (
+                                  x.id, pf.src(st.target), pf.src(st.iter)[:40], st.lineno), instance=inst)
+    return n
+
+
 def _spin_sum_after(fn, g, rec, mode):
     """A statement `x = x.sum(0)` / `x = np.sum(x, axis=0)` on the zeroed array, active in `mode`
     and reachable after the zeroing site -> that statement, else None."""
